@@ -374,6 +374,14 @@ func genC10(g *gen) {
 			dt := g.asmDtype(k)
 			for axis := 0; axis < len(sh); axis++ {
 				g.emit(fmt.Sprintf("new %s %s C", dt, ints(sh)), fmt.Sprintf("concat fn %d $0 $0 $0", axis), "dump $1", fmt.Sprintf("stack meth %d $0 $0", axis), "dump $2", "dump $0")
+				// … and on the view path: the tensor lazily transposed, a view with gaps, column-major
+				if len(sh) == 2 {
+					g.emit(fmt.Sprintf("new %s %s C", dt, ints([]int{sh[1], sh[0]})), "T $0 1,0", fmt.Sprintf("stack meth %d $0 $0", axis), "dump $1",
+						fmt.Sprintf("stack fn %d $0 $0 $0", axis), "dump $2", fmt.Sprintf("concat meth %d $0 $0", axis), "dump $3", "dump $0")
+					g.emit(fmt.Sprintf("new %s %s C", dt, ints([]int{sh[0] + 1, sh[1] + 1})), fmt.Sprintf("slice $0 1:%d,1:%d", sh[0]+1, sh[1]+1),
+						fmt.Sprintf("stack meth %d $1 $1 $1", axis), "dump $2", fmt.Sprintf("concat fn %d $1 $1", axis), "dump $3", "dump $0")
+					g.emit(fmt.Sprintf("new %s %s Fraw", dt, ints(sh)), fmt.Sprintf("stack fn %d $0 $0", axis), "dump $1", "dump $0")
+				}
 			}
 		}
 		// masked operands of Concat
